@@ -221,8 +221,21 @@ func changesetTime(t time.Time, zulu bool) string {
 // state.yaml names the file before the newest one) -- the server's consistent
 // off-by-one.
 func stateBody(kind int, s uint64, t time.Time) []byte {
+	return stateBodyNumbered(kind, s, t, false)
+}
+
+// stateBodyNumbered is the body of a NUMBERED state file (<nnn>.state.txt).
+// The planet's oldest changeset state files carry their own file number (the
+// off-by-one only starts later), so every third numbered changeset file here
+// does too: a numbered state always reports its file number, whatever the
+// number inside says.
+func stateBodyNumbered(kind int, s uint64, t time.Time, numbered bool) []byte {
 	if kind == kChangesets {
-		return []byte("---\nlast_run: " + changesetTime(t, s%2 == 0) + "\nsequence: " + strconv.FormatUint(s-1, 10) + "\n")
+		inside := s - 1
+		if numbered && s%3 == 0 {
+			inside = s
+		}
+		return []byte("---\nlast_run: " + changesetTime(t, s%2 == 0) + "\nsequence: " + strconv.FormatUint(inside, 10) + "\n")
 	}
 	var b strings.Builder
 	b.WriteString("#" + t.Add(time.Second).Format("Mon Jan 02 15:04:05 UTC 2006") + "\n")
